@@ -28,6 +28,7 @@ import PfVerif.Driver.Hooks
 import PfVerif.Driver.CritTensor
 import PfVerif.Driver.Factory
 import PfVerif.Driver.FeatReg
+import PfVerif.Driver.GradMode
 namespace PfVerif.Driver
 open Lean
 
@@ -82,6 +83,7 @@ def dispatch (op : String) (j : Json) : R Json :=
   | "crit_tensor" => opCritTensor j
   | "factory" => opFactory j
   | "feat_reg" => opFeatReg j
+  | "grad_mode" => opGradMode j
   | _ => .error s!"unknown op {op}"
 
 end PfVerif.Driver
